@@ -22,6 +22,10 @@
 (*  it_op   slot, op, n, res, sig     next next_back nth nth_back len size_hint *)
 (*                                    find rfind take_count rev_take_count take_last *)
 (*  it_end  slot, op, n, res, sig     consuming operation                   *)
+(*  par     threads, res, sig         a block of `threads` concurrent threads *)
+(*                                    returned (or the process died in it); *)
+(*                                    the events of thread k follow with      *)
+(*                                    slot = k, thread by thread            *)
 (*  compile_fail  case, grp, gprop, where, bare_ok, msg                     *)
 (*                                                                         *)
 (* Group (metamorphic) properties: consecutive cases with the same `grp`   *)
@@ -202,6 +206,14 @@ Step ==
             /\ Assert(ArgIsVariant(e) => e.a \in DOMAIN D, <<"argument is not a variant, line", l>>)
             /\ Judge(e, CallOK(e), CallProp(e.fn))
             /\ UNCHANGED <<D, base, meta, its, gst>>
+       [] e.ev = "par" ->
+            \* Concurrent threads, each with its own iterators (slot = thread) and its own calls.  The contract has no
+            \* shared state: every thread's events must be what the contract allows for that thread alone, whatever
+            \* the schedule was -- so the recorded per-thread sequences are judged one after the other.  The block
+            \* itself must return (a process that dies inside it is reported by the orchestrator as ub / abort).
+            /\ Judge(e, e.res.k = "ok", "C02")
+            /\ its' = NoIts
+            /\ UNCHANGED <<D, base, meta, gst>>
        [] e.ev = "it_new" ->
             /\ Assert(e.src = "range" => e.a \in DOMAIN D /\ e.b \in DOMAIN D, <<"range argument is not a variant, line", l>>)
             /\ Assert(e.slot \in Slots, <<"slot out of range, line", l>>)
